@@ -1108,6 +1108,8 @@ pub struct ReadOnlyUntypedMultimapTable {
     fixed_key_size: Option<usize>,
     fixed_value_size: Option<usize>,
     mem: PageResolver,
+    // Keeps the read transaction registered for as long as this handle can read its pages
+    _transaction_guard: Arc<TransactionGuard>,
 }
 
 impl Sealed for ReadOnlyUntypedMultimapTable {}
@@ -1152,6 +1154,7 @@ impl ReadOnlyUntypedMultimapTable {
         hint: PageHint,
         fixed_key_size: Option<usize>,
         fixed_value_size: Option<usize>,
+        guard: Arc<TransactionGuard>,
         mem: PageResolver,
     ) -> Self {
         Self {
@@ -1168,6 +1171,7 @@ impl ReadOnlyUntypedMultimapTable {
             fixed_key_size,
             fixed_value_size,
             mem,
+            _transaction_guard: guard,
         }
     }
 }
